@@ -407,8 +407,11 @@ func c12Tables(c *mon.Ctx) {
 	}
 	sort.Ints(nums)
 	for _, n := range nums {
-		for _, typ := range []auparse.AuditMessageType{auparse.AUDIT_SYSCALL, auparse.AUDIT_CONFIG_CHANGE} {
-			msg := fmt.Sprintf("%sarch=c000003e syscall=2 success=no exit=-%d pid=1", c12Hdr, n)
+		for vi, typ := range []auparse.AuditMessageType{auparse.AUDIT_SYSCALL, auparse.AUDIT_CONFIG_CHANGE, auparse.AUDIT_SYSCALL, auparse.AUDIT_SYSCALL, auparse.AUDIT_SYSCALL, auparse.AUDIT_SYSCALL} {
+			// the rule is about the exit value alone: whatever the record says about success (a successful call may
+			// return a negative number that happens to be an errno: it is still rendered by name)
+			succ := []string{"success=no ", "success=no ", "success=yes ", "success=1 ", "res=1 ", ""}[vi]
+			msg := fmt.Sprintf("%sarch=c000003e syscall=2 %sexit=-%d pid=1", c12Hdr, succ, n)
 			m, err := auparse.Parse(typ, msg)
 			if err != nil {
 				c.Violation("table-parse", err.Error(), msg)
@@ -435,8 +438,8 @@ func c12Tables(c *mon.Ctx) {
 			if err != nil || !okNames[d["exit"]] {
 				c.Violation("exit-name", fmt.Sprintf("exit=-%d -> Data()[exit]=%q err=%v, want %v", n, d["exit"], err, okNames), msg)
 			}
-			if d["result"] != "fail" {
-				c.Violation("result-rule", fmt.Sprintf("success=no -> result=%q", d["result"]), msg)
+			if wantRes := []string{"fail", "fail", "success", "success", "success", ""}[vi]; d["result"] != wantRes {
+				c.Violation("result-rule", fmt.Sprintf("%q -> result=%q, want %q", succ, d["result"], wantRes), msg)
 			}
 		}
 	}
